@@ -99,6 +99,18 @@ def PortState.hasLink : PortState → Bool
   | .noLink => false
   | .link => true
 
+/-- Get Sensor Reading (IPMI v2.0 table 35-15), byte 3 bit 5: 1 = reading/state unavailable (e.g. during the
+sensor's initial update, or after a re-arm until the next scan); reading and state bytes are then not valid -/
+inductive SensorReading where
+  | available
+  | unavailable
+  deriving Repr, DecidableEq
+
+def SensorReading.all : List SensorReading := [.available, .unavailable]
+def SensorReading.isAvailable : SensorReading → Bool
+  | .available => true
+  | .unavailable => false
+
 /-- IPMI v2.0 ch. 43: record type ↦ (record has an ID string, record has an entity id / instance).
 01h full, 02h compact, 03h event-only sensor; 08h entity association, 09h device-relative entity association
 (container / contained entities, no ID string); 10h generic, 11h FRU, 12h management controller device
